@@ -187,7 +187,8 @@ Pick == /\ done = "net" /\ Mode = "cases" /\ done' = "case"
         /\ \E T \in Grid(Nets[cur.n]) : cur' = [cur EXCEPT !.t = T]
 EmitCase == LET N == Nets[cur.n] T == cur.t IN
   PrintT(ToJson([k |-> "t", n |-> N.sym, t |-> XT(T), cls |-> ClassOf(N, T), ans |-> Answers(N, T), maynone |-> MayNone(N, T),
-                 apart |-> KindsApartOn(N, T), answering |-> Answering(N, T), reser |-> ReserOf(N, T), reparse |-> ReparseOf(N, T)]))
+                 apart |-> KindsApartOn(N, T), answering |-> Answering(N, T),
+                 faithful |-> \A o \in Objects(N, T) : Faithful(N, o), reser |-> ReserOf(N, T), reparse |-> ReparseOf(N, T)]))
 EmitClash == LET N == Nets[cur.n] IN
   PrintT(ToJson([k |-> "clash", n |-> N.sym, strict |-> Clashes(N), loose |-> ClashesLoose(N) \ Clashes(N)]))
 ExportCase == done = "case" /\ done' = "done" /\ UNCHANGED cur /\ EmitCase
